@@ -160,14 +160,26 @@ def search(res, tier, boost=False):
         gamma, mesh, M0 = operator(domain, data['u0'])
         pieces = unit_pieces(gamma, domain)
         side = DOMAINS[domain]['side']
-        for _ in range(n_el):
+        n_deep = (3 if tier == 'quick' else 12) * (2 if boost else 1)
+        for it in range(n_el + n_deep):
             s, pi_ = rng.choice(pieces)
-            l = rng.randint(0, 3)
+            if it < n_el:
+                l = rng.randint(0, 3)
+                lt = rng.randint(0, 4)
+                kt = rng.randrange(2**lt)
+            else:
+                # meshes graded strongly towards t = 0: time level up to 31 (start times down to 5e-10, positive or 0),
+                # space level as coarse as the aspect bound h_x^2/h_t <= 32 admits (or one finer)
+                lt = rng.randint(12, 31)
+                kt = rng.choice([0, 1, 1, 2, 3])
+                l = 0
+                while (side / 2**l)**2 * 2**lt > 32:
+                    l += 1
+                l += rng.randint(0, 1)
+                res.bump('deep_time_level_elements')
             k = rng.randrange(2**l)
             x0, x1 = s + side * k / 2**l, s + side * (k + 1) / 2**l
             hx = x1 - x0
-            lt = rng.randint(0, 4)
-            kt = rng.randrange(2**lt)
             a, b = kt / 2**lt, (kt + 1) / 2**lt
             if hx**2 / (b - a) > 32:
                 continue
